@@ -87,6 +87,7 @@ def main():
         for i in range(0, len(masks), 6):
             cases.append({"kind": "opmode", "masks": masks[i:i + 6], "modes": MODES, "transport": "sdo"})
             cases.append({"kind": "opmode", "masks": masks[i:i + 6], "modes": MODES, "transport": "sdo_dis"})
+            cases.append({"kind": "opmode", "masks": masks[i:i + 6], "modes": MODES, "transport": "pdo_split"})
             cases.append({"kind": "opmode", "masks": masks[i:i + 6], "modes": MODES, "transport": "pdo",
                           "seed": rng.randrange(1 << 30)})
     results = run_cases("harness.drv_p402:run_case", cases, jobs=args.jobs, timeout=60)
@@ -105,11 +106,15 @@ def main():
         v.report(sig, f"{rej.why} [init={c.get('init')} targets={c.get('targets')} auto_after={c.get('auto_after')} "
                       f"extra={c.get('extra')} transport={c.get('transport')}] event={str(ev)[:300]} spec={rej.state[:300]}",
                  {"case": c, "step": rej.step, "why": rej.why, "spec_state": rej.state, "event": ev})
-    rows = run_cases("harness.drv_p402:sw_table", [0], jobs=1, timeout=300)[0]
-    bad, _ = tlc.check_table("Table_P402", rows, jobs=2)
-    for idx, why in bad[:3000]:
-        r = rows[idx]
-        v.report({"clause": why, "low7": r["sw"] & 0x6F}, f"{why}: 0x{r['sw']:04X} -> {r['state']}", {"row": r})
+    nrows = nbad = 0
+    for via in (0, "pdo"):      # every statusword carried by SDO, and by a TPDO
+        rows = run_cases("harness.drv_p402:sw_table", [via], jobs=1, timeout=300)[0]
+        bad, _ = tlc.check_table("Table_P402", rows, jobs=2)
+        nrows, nbad = nrows + len(rows), nbad + len(bad)
+        for idx, why in bad[:3000]:
+            r = rows[idx]
+            v.report({"clause": why, "low7": r["sw"] & 0x6F, "via": via or "sdo"},
+                     f"{why}: 0x{r['sw']:04X} (by {via or 'sdo'}) -> {r['state']}", {"row": r, "via": via or "sdo"})
     outcome = {}
     for c, r in zip(cases, results):
         if c["kind"] == "state" and r["ev"]:
@@ -117,7 +122,7 @@ def main():
             outcome[k] = outcome.get(k, 0) + 1
     cov = {"states": mc.distinct, "transitions": mc.generated, "traces_validated_against_impl": val.traces,
            "samples": [results[min(5, len(results) - 1)]["ev"][:8]], "trace_events": val.events, "model_scenarios": len(scen),
-           "statusword_table_rows": len(rows), "bad_rows": len(bad), "outcomes": outcome,
+           "statusword_table_rows": nrows, "bad_rows": nbad, "outcomes": outcome,
            "original_algorithm_counterexample_found": not guard.ok, "rejected": len(val.rejects)}
     return v.finish("model_checking", cov, [
         "reference drive: QUICK STOP ACTIVE is stable; initial last controlword has bit 7 clear; automatic transitions fire after the k-th drive access",
